@@ -1,15 +1,17 @@
 #!/bin/bash
-# usage: tools/run_all_mutants.sh [seeded|mutants|all]   -> one line per mutant: name prop exit
+# usage: tools/run_all_mutants.sh [seeded|mutants|all] [glob]   -> one line per mutant: name prop exit
 cd "$(dirname "$0")/.."
-which=${1:-all}
+which=${1:-all}; glob=${2:-*}
 if [ "$which" != mutants ]; then
-for d in seeded/*/; do
+for d in seeded/$glob/; do
+  [ -f "$d/patch.diff" ] || continue
   id=$(basename $d); prop=${id%%-*}
   /venv/bin/python tools/run_mutant.py $d/patch.diff $prop 2>&1 | sed "s|^|[$id] |"
 done
 fi
 if [ "$which" != seeded ]; then
-for p in mutants/*.patch; do
+for p in mutants/$glob.patch; do
+  [ -f "$p" ] || continue
   name=$(basename $p .patch); prop=$(echo ${name%%_*} | tr a-z A-Z)
   /venv/bin/python tools/run_mutant.py $p $prop 2>&1 | sed "s|^|[$name] |"
 done
